@@ -145,6 +145,9 @@
 //!  tp-unconfirmed  tokens expiring (3-5 s) before the time-out (10-15 s); one client is never updated again from the moment
 //!               the server accepted its response (unconfirmed session), 0-2 ordinary sessions; lossless rounds past expiry and
 //!               time-out; `note settled`
+//!  tp-reconnect  id 100 connected on relay slot 0, reliable messages M1 submitted to it, that client object never updated
+//!               again; a second client object with the same id (fresh token, relay slot 1) knocks inside the time-out; M2
+//!               submitted; the second object reads everything (C03 / C11 `tp-channels`: only what was submitted since it exists)
 //!
 //! # Oracles (prop C20; all pure functions of (ops, outs))
 //!  tp-lockstep        (a) every t-state right after a t-supd: rc = nc, nn = |nc|, rd = [], bad = []
@@ -2217,6 +2220,82 @@ fn script_unconfirmed(rng: &mut Rng, _tier: Tier, ex: &mut dyn FnMut(&str) -> St
     d.settle();
 }
 
+/// profile 8 (sibling of tp-dupid's first variant, with application messages): client id 100 is connected on relay slot 0
+/// (time-out 15 s); the server submits reliable messages M1 (ordered, unordered) to it; that client object is never updated
+/// again (silent, not disconnected; nothing of the server reaches it any more); a second client object with the SAME id (fresh
+/// token, new socket, relay slot 1) knocks; the server submits M2; lossless rounds on slot 1, well inside the time-out; the
+/// second client reads everything. Messages are attributed to the client object that exists when they are submitted
+/// (`t-cnew` starts the new session of the id): whatever the second object obtains was submitted after it came into being
+fn script_reconnect(rng: &mut Rng, _tier: Tier, ex: &mut dyn FnMut(&str) -> String) {
+    let mut x = |op: &str| -> String { ex(op) };
+    x("t-new 1 2 15 60 2");
+    x("note lossless");
+    x("note churn");
+    let observe = |x: &mut dyn FnMut(&str) -> String| {
+        for _ in 0..8 {
+            if x("t-ev") == "none" {
+                break;
+            }
+        }
+        x("t-state");
+        x("t-acc");
+    };
+    for _ in 0..4 {
+        x("t-cupd 0 250000");
+        x("t-fwdn up 0");
+        x("t-supd 250000");
+        observe(&mut x);
+        x("t-ssend");
+        x("t-fwdn down 0");
+    }
+    let stamp = |rng: &mut Rng, tag: u8| {
+        let n = rng.range(3, 40) as usize;
+        format!("{:02x}{}", tag, hex(&rng.payload(n)))
+    };
+    // M1: never acknowledged (the first client object is gone from here on)
+    let nm1 = rng.range(1, 3);
+    for j in 0..nm1 {
+        let m = stamp(rng, 0x10 + j as u8);
+        x(&format!("t-send s100 2 {}", m));
+        let m = stamp(rng, 0x20 + j as u8);
+        x(&format!("t-send s100 1 {}", m));
+    }
+    x("t-ssend");
+    let dt = rng.pick(&[100_000u64, 250_000, 500_000]);
+    for _ in 0..rng.below(4) {
+        x(&format!("t-supd {}", dt));
+        observe(&mut x);
+        x("t-ssend");
+    }
+    x("t-cnew 1 100");
+    let rounds = rng.range(6, 10);
+    let m2_at = rng.range(2, 4);
+    for r in 0..rounds {
+        x("t-cupd 1 250000");
+        x("t-csend 1");
+        x("t-fwdn up 1");
+        x("t-supd 250000");
+        observe(&mut x);
+        if r == m2_at {
+            let m = stamp(rng, 0x30);
+            x(&format!("t-send s100 2 {}", m));
+            let m = stamp(rng, 0x40);
+            x(&format!("t-send s100 1 {}", m));
+        }
+        x("t-ssend");
+        x("t-fwdn down 1");
+        if r >= m2_at && rng.chance(1, 2) {
+            x("t-recvall c1 2");
+            x("t-recvall c1 1");
+        }
+    }
+    x("t-cupd 1 0");
+    for ch in [2, 1, 0] {
+        x(&format!("t-recvall c1 {}", ch));
+    }
+    observe(&mut x);
+}
+
 fn nontrivial(t: &Trace) -> bool {
     t.outs.iter().any(|o| o.starts_with("connected ")) && t.outs.iter().any(|o| o.starts_with("msg ") || (o.starts_with("msgs ") && !o.starts_with("msgs 0")))
 }
@@ -2293,6 +2372,16 @@ pub fn profiles() -> Vec<Profile> {
             new_world,
             script: script_unconfirmed,
             nontrivial: |t| t.outs.iter().any(|o| o.starts_with("connected ")) && t.ops.iter().any(|o| o.starts_with("note silent")),
+            keep: keep_cfg,
+            fixed: None,
+        },
+        Profile {
+            name: "tp-reconnect",
+            props: &["C03", "C11", "C20"],
+            cases: |t| tier_cases(t, 12, 100),
+            new_world,
+            script: script_reconnect,
+            nontrivial: |t| t.outs.iter().any(|o| o.starts_with("connected 100")) && t.ops.iter().any(|o| o.starts_with("t-cnew ")),
             keep: keep_cfg,
             fixed: None,
         },
@@ -3859,7 +3948,8 @@ pub fn oracles() -> Vec<Oracle> {
         Oracle { prop: "C20", name: "tp-stray-ignored", engines: &["tp-"], check: oracle_stray_ignored },
         Oracle { prop: "C20", name: "tp-late-replay-quiet", engines: &["tp-"], check: oracle_late_replay_quiet },
         Oracle { prop: "C20", name: "tp-disconnect-reasons", engines: &["tp-lossless"], check: oracle_disconnect_reasons },
-        Oracle { prop: "C11", name: "tp-channels", engines: &["tp-lossless", "tp-rejoin"], check: oracle_channels },
+        Oracle { prop: "C11", name: "tp-channels", engines: &["tp-lossless", "tp-rejoin", "tp-reconnect"], check: oracle_channels },
+        Oracle { prop: "C03", name: "tp-channels", engines: &["tp-reconnect"], check: oracle_channels },
         Oracle { prop: "C20", name: "tp-client-status", engines: &["tp-"], check: oracle_client_status },
         Oracle { prop: "C20", name: "tp-accessors", engines: &["tp-"], check: oracle_accessors },
         Oracle { prop: "C20", name: "tp-session-events", engines: &["tp-"], check: oracle_session_events },
